@@ -1,7 +1,7 @@
 """C52 connection limits are never exceeded — comparison relation of check_limit (K9/K7), check-dominates-Ok guards (K1), operand table (K6/K11), set bookkeeping pairing (K2), who-may-mutate (K4)."""
 import re
 
-from .. import lib, mir
+from .. import lib, lib_misc as lm, mir
 from ..mir import render, strip_generics
 
 EXPLANATION = ("check_limit: `Ok` is returned only on the strict edge current < limit (false edge of `current >= limit`), the at-limit edge "
@@ -21,30 +21,26 @@ ASSUMPTIONS = ["Swarm calls handle_established_* and then delivers ConnectionEst
                "interleavings across several swarms are not executed"]
 CL = "libp2p_connection_limits"
 NB = r"<Behaviour as libp2p_swarm::NetworkBehaviour>::"
-SETS = ["pending_inbound_connections", "pending_outbound_connections", "established_inbound_connections",
-        "established_outbound_connections", "established_per_peer"]
-LEN = "std::collections::HashSet::len(self.%s)"
-PER_PEER = "per-peer"
-TOTAL = "AddWithOverflow(%s, %s).0" % (LEN % "established_inbound_connections", LEN % "established_outbound_connections")
-TOTAL_REV = "AddWithOverflow(%s, %s).0" % (LEN % "established_outbound_connections", LEN % "established_inbound_connections")
-
-# handler -> {limit field: counted quantity}
+BEH = r"^libp2p_connection_limits::Behaviour$"
+# Public API names used as anchors: the NetworkBehaviour hooks, Behaviour::is_bypassed, ConnectionLimits::with_max_* and the
+# public types Exceeded / ConnectionLimits.  Everything private (check_limit, the limits / bypass / five set fields, the
+# max_* fields, parameter names) is resolved by role in resolve().
+SETTERS = {"max_pending_incoming": "with_max_pending_incoming", "max_pending_outgoing": "with_max_pending_outgoing",
+           "max_established_incoming": "with_max_established_incoming", "max_established_outgoing": "with_max_established_outgoing",
+           "max_established_per_peer": "with_max_established_per_peer", "max_established_total": "with_max_established"}
+ROLE_DESC = {"PI": "pending-inbound set", "PO": "pending-outbound set", "EI": "established-inbound set", "EO": "established-outbound set", "PP": "per-peer map"}
+# handler -> {limit role: counted quantity (role expression)}
 TABLE = {
-    "handle_pending_inbound_connection": {"max_pending_incoming": LEN % "pending_inbound_connections"},
-    "handle_pending_outbound_connection": {"max_pending_outgoing": LEN % "pending_outbound_connections"},
-    "handle_established_inbound_connection": {"max_established_incoming": LEN % "established_inbound_connections",
-                                              "max_established_per_peer": PER_PEER, "max_established_total": TOTAL},
-    "handle_established_outbound_connection": {"max_established_outgoing": LEN % "established_outbound_connections",
-                                               "max_established_per_peer": PER_PEER, "max_established_total": TOTAL},
+    "handle_pending_inbound_connection": {"max_pending_incoming": "len(PI)"},
+    "handle_pending_outbound_connection": {"max_pending_outgoing": "len(PO)"},
+    "handle_established_inbound_connection": {"max_established_incoming": "len(EI)", "max_established_per_peer": "per-peer", "max_established_total": "len(EI)+len(EO)"},
+    "handle_established_outbound_connection": {"max_established_outgoing": "len(EO)", "max_established_per_peer": "per-peer", "max_established_total": "len(EI)+len(EO)"},
 }
-PENDING_SET = {"handle_pending_inbound_connection": "pending_inbound_connections",
-               "handle_pending_outbound_connection": "pending_outbound_connections",
-               "handle_established_inbound_connection": "pending_inbound_connections",
-               "handle_established_outbound_connection": "pending_outbound_connections"}
-TRY = r"^discr\((<std::result::Result as std::ops::Try>::branch\()?libp2p_connection_limits::check_limit\("
+PENDING_ROLE = {"handle_pending_inbound_connection": "PI", "handle_pending_outbound_connection": "PO",
+                "handle_established_inbound_connection": "PI", "handle_established_outbound_connection": "PO"}
 
 SELFTEST = [
-    {"mutation": "check_limit: `current >= limit` -> `current > limit`", "caught_by": "relation/check_limit: Ok only when current < limit"},
+    {"mutation": "check_limit: `current >= limit` -> `current > limit`", "caught_by": "relation/checker: Ok only when current < limit"},
     {"mutation": "handle_established_inbound_connection: drop the `?` of the per-peer check (`let _ = check_limit(..)`)",
      "caught_by": "admit/handle_established_inbound_connection: Ok only after max_established_per_peer passed"},
     {"mutation": "handle_established_outbound_connection: total check uses established_outbound.len() twice",
@@ -52,242 +48,287 @@ SELFTEST = [
     {"mutation": "handle_pending_outbound_connection: `if !maybe_peer.is_some_and(..)` (bypass polarity)",
      "caught_by": "admit/handle_pending_outbound_connection: Ok only after max_pending_outgoing passed"},
     {"mutation": "on_swarm_event ConnectionEstablished: Listener arm inserts into established_outbound_connections",
-     "caught_by": "established/Listener: inserted into established_inbound_connections"},
+     "caught_by": "roles/...ids are recorded in four different sets (Listener and Dialer edges resolve to one set)"},
     {"mutation": "handle_pending_inbound_connection: insert removed", "caught_by": "pending/handle_pending_inbound_connection: admitted id recorded once"},
-    {"mutation": "on_swarm_event DialFailure: removes from pending_inbound_connections instead", "caught_by": "release/DialFailure: removed from pending_outbound_connections on every path + who/removal from pending_inbound_connections only in ListenFailure"},
-    {"mutation": "is_bypassed returns !contains", "caught_by": "bypass/is_bypassed = bypass_peer_id.contains(peer)"},
+    {"mutation": "on_swarm_event DialFailure: removes from pending_inbound_connections instead", "caught_by": "release/DialFailure: removed from the pending-outbound set on every path + who/removal from the pending-inbound set only in ListenFailure"},
+    {"mutation": "is_bypassed returns !contains", "caught_by": "bypass/is_bypassed = bypass set contains(peer)"},
     {"mutation": "on_swarm_event catch-all arm clears established_inbound_connections", "caught_by": "who/mutators of the five sets"},
+    {"mutation": "handle_pending_inbound_connection inserts into pending_outbound_connections", "caught_by": "roles/...ids are recorded in four different sets"},
+    {"mutation": "NEUTRAL: consistent rename of check_limit, the five set fields, limits, max_* fields, parameters (all private)", "caught_by": "(silent, by design: private items are resolved by role)"},
 ]
 
 
-def unnot(cond, label):
-    """Normalise `Not(x)` switches: returns (x, flipped label)."""
-    while cond[0] == "un" and cond[1] == "Not" and label in ("true", "false"):
-        cond = cond[2]
-        label = "false" if label == "true" else "true"
-    return cond, label
+
+unnot = lm.unnot
 
 
 def result_defs(body):
-    """Classify every assignment of the return place: list of (kind, Site) with kind Ok / Err / residual / other."""
-    out = []
-    for d in body.defs.get(0, []):
-        site = mir.Site(body, d[1], d[2])
-        if d[0] == "stmt":
-            e = body.rvalue_expr(d[3])
-            if e[0] == "agg" and e[1] == "adt" and strip_generics(e[2]).endswith("result::Result") and e[3] in ("Ok", "Err"):
-                out.append((e[3], site))
-            else:
-                out.append(("other:" + render(e)[:60], site))
-        else:
-            n = strip_generics(body.call_name(d[3]))
-            out.append(("residual" if n.endswith("FromResidual>::from_residual") else "other:" + n, site))
-    return out
+    return [(k, s) for k, s, _ in lm.result_defs(body)]
 
 
-def per_peer_ok(prog, body, e):
-    """`self.established_per_peer.get(&peer)` mapped to the size of that peer's set, 0 when absent."""
-    r = render(e)
-    if "std::collections::HashMap::get(self.established_per_peer, peer)" not in r:
-        return False
-    if not re.search(r"Option::(unwrap_or\(.*, 0\)$|map_or\(.*, 0, )|unwrap_or_default\(", r):
-        return False
-    cl = lib.closure_of(prog, body, e)
-    if cl is None:
-        return False
-    ds = cl.defs.get(0, [])
-    if len(ds) != 1:
-        return False
-    rr = render(cl.site_expr(mir.Site(cl, ds[0][1], ds[0][2])))
-    return re.match(r"^std::collections::HashSet::len\(\w+\)$", rr) is not None
+class Roles:
+    pass
 
 
-def bypass_edges(prog, body):
-    """Edges on which the peer is known to be bypassed."""
-    out = set()
-    for bi in body.live:
-        info = body.switch_info(bi)
-        if not info:
+def direct_set_inserts(body, set_fields, region=None):
+    """{field: [sites]} of HashSet::insert(self.<field>, ..) with a direct field receiver."""
+    out = {}
+    for s in body.call_sites(r"HashSet::insert$"):
+        if region is not None and s.bb not in region:
             continue
-        for tgt, ls in info[1].items():
-            for l in ls:
-                c, lab = unnot(info[0], l)
-                if lab != "true" or c[0] != "call":
-                    continue
-                n = strip_generics(c[1])
-                if n == "libp2p_connection_limits::Behaviour::is_bypassed" and render(c[2][0]) == "self" and render(c[2][1]) == "peer":
-                    out.add((bi, tgt))
-                elif n == "std::option::Option::is_some_and" and render(c[2][0]) == "maybe_peer":
-                    cl = lib.closure_of(prog, body, c)
-                    if cl is not None:
-                        ds = cl.defs.get(0, [])
-                        rr = [render(cl.site_expr(mir.Site(cl, d[1], d[2]))) for d in ds]
-                        if rr == ["libp2p_connection_limits::Behaviour::is_bypassed(^*self, peer)"] or rr == ["libp2p_connection_limits::Behaviour::is_bypassed(^self, peer)"]:
-                            out.add((bi, tgt))
+        f = lm.recv_self_field(body.site_expr(s))
+        if f in set_fields:
+            out.setdefault(f, []).append(s)
     return out
 
 
-def set_calls(body, field, callee_pat):
-    """Calls matching callee_pat whose receiver expression mentions self.<field>."""
-    out = []
-    for s in body.call_sites(callee_pat):
-        e = body.site_expr(s)
-        if e[2] and re.search(r"\bself\.%s\b" % field, render(e[2][0])):
-            out.append(s)
-    return out
+def resolve(ctx):
+    prog = ctx.prog
+    R = Roles()
+    R.limits = lm.field_by_type(prog, CL, BEH, r"(^|::)ConnectionLimits$")
+    R.bypass = lm.field_by_type(prog, CL, BEH, r"HashSet<.*PeerId>$")
+    R.PP = lm.field_by_type(prog, CL, BEH, r"HashMap<.*PeerId, .*HashSet<.*ConnectionId>>")
+    id_sets = lm.fields_by_type(prog, CL, BEH, r"^std::collections::HashSet<.*ConnectionId>$")
+    R.id_sets = id_sets
+    # the limit fields through the public setters
+    R.lim = {}
+    lf = [n for n, _ in lm.adt_fields(prog, CL, r"^libp2p_connection_limits::ConnectionLimits$")]
+    for role, setter in SETTERS.items():
+        b = ctx.body(CL, r"^libp2p_connection_limits::ConnectionLimits::%s$" % setter)
+        ws = [f for f in lf if b.field_write_sites(f)]
+        if len(ws) != 1:
+            raise mir.RuleError("ConnectionLimits::%s writes %s (expected exactly one field)" % (setter, ws))
+        R.lim[role] = ws[0]
+    if len(set(R.lim.values())) != len(R.lim):
+        raise mir.RuleError("two ConnectionLimits setters write the same field: %s" % R.lim)
+    # the checker: the function that constructs the public error type Exceeded
+    mk = [b for b in prog.bodies(CL) if b.agg_sites(r"^libp2p_connection_limits::Exceeded$") and "Clone" not in b.npath]
+    if len(mk) != 1:
+        raise mir.RuleError("Exceeded is constructed by %s (expected exactly one checking function)" % [b.npath for b in mk])
+    R.chk = mk[0]
+    ctx.use(R.chk)
+    # set roles from where ids are recorded
+    ev = ctx.body(CL, NB + "on_swarm_event$")
+    R.ev = ev
+    R.EV = lm.pname(ev, 2)
+    pi = direct_set_inserts(ctx.body(CL, NB + "handle_pending_inbound_connection$"), id_sets)
+    po = direct_set_inserts(ctx.body(CL, NB + "handle_pending_outbound_connection$"), id_sets)
+    lst = lib.switch_edges_on(ev, r"^discr\(%s@ConnectionEstablished\.0\.endpoint\)$" % re.escape(R.EV), {"Listener"})
+    dlr = lib.switch_edges_on(ev, r"^discr\(%s@ConnectionEstablished\.0\.endpoint\)$" % re.escape(R.EV), {"Dialer"})
+    ei = direct_set_inserts(ev, id_sets, ev.reachable([t for _, t in lst])) if lst else {}
+    eo = direct_set_inserts(ev, id_sets, ev.reachable([t for _, t in dlr])) if dlr else {}
+    R.raw = {"PI": sorted(pi), "PO": sorted(po), "EI": sorted(ei), "EO": sorted(eo)}
+    return R
 
 
 def check(ctx):
     prog = ctx.prog
-    # ------------------------------------------------------------------ check_limit relation
-    cl = ctx.body(CL, r"^libp2p_connection_limits::check_limit$")
+    R = resolve(ctx)
+    ok_roles = all(len(v) == 1 for v in R.raw.values()) and len({v[0] for v in R.raw.values() if v}) == 4
+    ctx.ob("roles", "pending-inbound / pending-outbound / established-inbound (Listener) / established-outbound (Dialer) ids are recorded in four different sets",
+           ok_roles, msg="sets receiving inserts: pending inbound hook %s, pending outbound hook %s, ConnectionEstablished Listener edge %s, Dialer edge %s" %
+           (R.raw["PI"], R.raw["PO"], R.raw["EI"], R.raw["EO"]))
+    if not ok_roles:
+        return
+    F = {k: v[0] for k, v in R.raw.items()}
+    F["PP"] = R.PP
+    ROLE_OF = {v: k for k, v in F.items()}
+    SETS = [F[k] for k in ("PI", "PO", "EI", "EO", "PP")]
+    ctx.note("roles: %s limits=%s bypass=%s limit fields=%s checker=%s" % (F, R.limits, R.bypass, R.lim, R.chk.npath.split("::")[-1]))
+    LIM_ROLE = {v: k for k, v in R.lim.items()}
+
+    def LEN(role):
+        return "std::collections::HashSet::len(self.%s)" % F[role]
+    TOTALS = ("AddWithOverflow(%s, %s).0" % (LEN("EI"), LEN("EO")), "AddWithOverflow(%s, %s).0" % (LEN("EO"), LEN("EI")))
+
+    # ------------------------------------------------------------------ the checker's relation
+    cl = R.chk
+    CHK = "^" + re.escape(cl.npath) + "$"
     where = "%s:%d" % (cl.file, cl.line)
+    LIMP, CURP = lm.param_by_type(cl, r"^std::option::Option<u32>$", first=1), lm.param_by_type(cl, r"^usize$", first=1)
+    LIMI, CURI = lm.param_index_by_type(cl, r"^std::option::Option<u32>$", first=1) - 1, lm.param_index_by_type(cl, r"^usize$", first=1) - 1
+    CUR_PAT, LIM_PAT = r"^\(?%s\b" % re.escape(CURP), r"\b%s\b" % re.escape(LIMP)
     res = result_defs(cl)
     oks = [s for k, s in res if k == "Ok"]
     errs = [s for k, s in res if k == "Err"]
-    ctx.floor("relation", "check_limit Ok results", oks, 1)
-    ctx.floor("relation", "check_limit Err results", errs, 1)
-    ctx.ob("relation", "check_limit: results are Ok or Err", all(k in ("Ok", "Err") for k, _ in res), where, str([k for k, _ in res]))
-    good, weak = lib.strict_limit_edges(cl, r"^\(?current\b", r"\blimit\b")
+    ctx.floor("relation", "checker Ok results", oks, 1)
+    ctx.floor("relation", "checker Err results", errs, 1)
+    ctx.ob("relation", "checker: results are Ok or Err", all(k in ("Ok", "Err") for k, _ in res), where, str([k for k, _ in res]))
+    good, weak = lib.strict_limit_edges(cl, CUR_PAT, LIM_PAT)
     for s in oks:
         ok = bool(good) and cl.must_pass_edges(s.bb, good)
         msg = "Ok is reached only through the edge current < limit" if ok else "Ok reachable without current < limit"
         if not ok and weak and cl.must_pass_edges(s.bb, good | weak):
             msg += " — only a non-strict comparison (`current > limit`) guards it: the limit-th + 1 connection is admitted"
-        ctx.ob("relation", "check_limit: Ok only when current < limit", ok, s.loc(), msg)
-    # rejection side: Ge-true / Lt-false (an `==` test would not be a rejection test for a set size that can be above the limit)
-    at = {(b, t) for (b, t, op, lab) in lib.cmp_guard(cl, r"^\(?current\b", r"\blimit\b", None) if (op, lab) in (("Ge", "true"), ("Lt", "false"))}
+        ctx.ob("relation", "checker: Ok only when current < limit", ok, s.loc(), msg)
+    at = {(b, t) for (b, t, op, lab) in lib.cmp_guard(cl, CUR_PAT, LIM_PAT, None) if (op, lab) in (("Ge", "true"), ("Lt", "false"))}
     ctx.ob("relation", "floor:at-limit edge", len(at) >= 1, where, str(sorted(at)), nontrivial=False)
     if at:
         got = lib.count_range(cl, [t for _, t in at], cl.return_blocks(), lib.bbs(oks))
-        ctx.ob("relation", "check_limit: current >= limit never yields Ok", got == (0, 0), where, "Ok results on paths from the at-limit edge: %s" % (got,))
+        ctx.ob("relation", "checker: current >= limit never yields Ok", got == (0, 0), where, "Ok results on paths from the at-limit edge: %s" % (got,))
         got = lib.count_range(cl, [t for _, t in at], cl.return_blocks(), lib.bbs(errs))
-        ctx.ob("relation", "check_limit: current >= limit yields Err", got == (1, 1), where, "Err results on paths from the at-limit edge: %s" % (got,))
-    # the compared operands are the two parameters (limit defaulting only when None)
-    for bi, tgt, op, lab in lib.cmp_guard(cl, r"^\(?current\b", r"\blimit\b", None)[:1]:
+        ctx.ob("relation", "checker: current >= limit yields Err", got == (1, 1), where, "Err results on paths from the at-limit edge: %s" % (got,))
+    for bi, tgt, op, lab in lib.cmp_guard(cl, CUR_PAT, LIM_PAT, None)[:1]:
         cond = cl.switch_info(bi)[0]
         a, b = render(cond[2]), render(cond[3])
-        both = a + " | " + b
-        ctx.ob("relation", "check_limit: compares parameter `current` with parameter `limit`",
-               re.search(r"^\(current as u32\)$|^current$", a if "current" in a else b) is not None and
-               re.search(r"^std::option::Option::(unwrap_or|unwrap_or_else|map_or)\(limit, ", b if "limit" in b else a) is not None, where, both[:200])
-    callers = prog.callers(CL, r"^libp2p_connection_limits::check_limit$")
-    ctx.floor("relation", "check_limit call sites", callers, 8)
+        ca, la = (a, b) if re.search(CUR_PAT, a) else (b, a)
+        ctx.ob("relation", "checker: compares its count parameter with its limit parameter",
+               re.search(r"^\(%s as u32\)$|^%s$" % (re.escape(CURP), re.escape(CURP)), ca) is not None and
+               re.search(r"^std::option::Option::(unwrap_or|unwrap_or_else|map_or)\(%s, " % re.escape(LIMP), la) is not None, where, (a + " | " + b)[:200])
+    callers = prog.callers(CL, CHK)
+    ctx.floor("relation", "checker call sites", callers, 8)
+    ctx.ob("relation", "the checker is called only from the four hooks", {s.body.npath.split("::")[-1] for s in callers} <= set(TABLE), msg=str(sorted({s.body.npath.split("::")[-1] for s in callers})))
 
     # ------------------------------------------------------------------ bypass polarity
     ib = ctx.body(CL, r"^libp2p_connection_limits::Behaviour::is_bypassed$")
     rr = [render(ib.site_expr(mir.Site(ib, d[1], d[2]))) for d in ib.defs.get(0, [])]
-    ctx.ob("bypass", "is_bypassed = bypass_peer_id.contains(peer)", rr == ["std::collections::HashSet::contains(self.bypass_peer_id, remote_peer)"],
+    ctx.ob("bypass", "is_bypassed = bypass set contains(peer)", rr == ["std::collections::HashSet::contains(self.%s, %s)" % (R.bypass, lm.pname(ib, 2))],
            "%s:%d" % (ib.file, ib.line), str(rr))
 
-    # ------------------------------------------------------------------ the four handlers
+    def bypass_edges(body, peer_param):
+        out = set()
+        for bi in body.live:
+            info = body.switch_info(bi)
+            if not info:
+                continue
+            for tgt, ls in info[1].items():
+                for l in ls:
+                    c, lab = unnot(info[0], l)
+                    if lab != "true" or c[0] != "call":
+                        continue
+                    n = strip_generics(c[1])
+                    if n == "libp2p_connection_limits::Behaviour::is_bypassed" and render(c[2][0]) == "self" and render(c[2][1]) == peer_param:
+                        out.add((bi, tgt))
+                    elif n == "std::option::Option::is_some_and" and render(c[2][0]) == peer_param:
+                        cb = lib.closure_of(prog, body, c)
+                        if cb is not None:
+                            rr2 = [cb.site_expr(mir.Site(cb, d[1], d[2])) for d in cb.defs.get(0, [])]
+                            if len(rr2) == 1 and rr2[0][0] == "call" and strip_generics(rr2[0][1]) == "libp2p_connection_limits::Behaviour::is_bypassed" and \
+                                    render(rr2[0][2][0]) in ("^*self", "^self") and rr2[0][2][1][0] == "arg":
+                                out.add((bi, tgt))
+        return body.derive_edges(out) if out and hasattr(body, "derive_edges") else out
+
+    def per_peer_ok(body, e, peer_param):
+        r = render(e)
+        if "std::collections::HashMap::get(self.%s, %s)" % (F["PP"], peer_param) not in r:
+            return False
+        if not re.search(r"Option::(unwrap_or\(.*, 0\)$|map_or\(.*, 0, )|unwrap_or_default\(", r):
+            return False
+        cb = lib.closure_of(prog, body, e)
+        if cb is None:
+            return False
+        ds = cb.defs.get(0, [])
+        if len(ds) != 1:
+            return False
+        x = cb.site_expr(mir.Site(cb, ds[0][1], ds[0][2]))
+        return x[0] == "call" and strip_generics(x[1]) == "std::collections::HashSet::len" and x[2][0][0] == "arg"
+
+    # ------------------------------------------------------------------ the four hooks
     for fn, table in TABLE.items():
         b = ctx.body(CL, NB + fn + "$")
         where = "%s:%d" % (b.file, b.line)
         rets = b.return_blocks()
-        calls = b.call_sites(r"^libp2p_connection_limits::check_limit$")
-        ctx.floor("operand", fn + " check_limit calls", calls, len(table), exact=True)
-        by_field = {}
+        CID = lm.param_by_type(b, r"ConnectionId$")
+        PEER = lm.param_by_type(b, r"PeerId") if fn != "handle_pending_inbound_connection" else None
+        calls = b.call_sites(CHK)
+        ctx.floor("operand", fn + " limit checks", calls, len(table), exact=True)
+        by_role = {}
         for s in calls:
             e = b.site_expr(s)
-            m = re.match(r"^self\.limits\.(\w+)$", render(e[2][0]))
-            fld = m.group(1) if m else "?" + render(e[2][0])[:40]
-            by_field.setdefault(fld, []).append(s)
-        ctx.ob("operand", fn + ": limits checked", set(by_field) == set(table), where,
-               "limit fields passed to check_limit: %s, required %s" % (sorted(by_field), sorted(table)))
+            m = re.match(r"^self\.%s\.(\w+)$" % re.escape(R.limits), render(e[2][LIMI]))
+            role = LIM_ROLE.get(m.group(1), "?" + m.group(1)) if m else "?" + render(e[2][LIMI])[:40]
+            by_role.setdefault(role, []).append(s)
+        ctx.ob("operand", fn + ": limits checked", set(by_role) == set(table), where,
+               "limits passed to the checker: %s, required %s" % (sorted(by_role), sorted(table)))
         res = result_defs(b)
         ctx.ob("admit", fn + ": results are Ok / Err / `?` residual", all(k in ("Ok", "Err", "residual") for k, _ in res), where, str([k for k, _ in res]))
         oks = [s for k, s in res if k == "Ok"]
-        ctx.floor("admit", fn + " Ok results", oks, 2 if fn != "handle_pending_inbound_connection" else 1)
-        byp = bypass_edges(prog, b)
+        ctx.floor("admit", fn + " Ok results", oks, 1)
+        byp = bypass_edges(b, PEER) if PEER else set()
         if fn == "handle_pending_inbound_connection":
             ctx.ob("bypass", fn + ": no bypass (peer unknown)", not byp, where, "%d bypass edges" % len(byp))
         else:
-            ctx.ob("bypass", "floor:" + fn + " bypass edge", len(byp) == 1, where, str(sorted(byp)), nontrivial=False)
+            ctx.ob("bypass", "floor:" + fn + " bypass edge", len(byp) >= 1, where, str(sorted(byp)), nontrivial=False)
         all_cont = set()
-        for fld, want in table.items():
-            for s in by_field.get(fld, [])[:1]:
+        for lim_role, want in table.items():
+            for s in by_role.get(lim_role, [])[:1]:
                 e = b.site_expr(s)
-                cur = e[2][1]
-                if want == PER_PEER:
-                    ok = per_peer_ok(prog, b, cur)
-                    desc = "size of established_per_peer[peer] (0 if absent)"
-                elif want == TOTAL:
-                    ok = render(cur) in (TOTAL, TOTAL_REV)
-                    desc = "established_inbound.len() + established_outbound.len()"
+                cur = e[2][CURI]
+                if want == "per-peer":
+                    ok = per_peer_ok(b, cur, PEER)
+                    desc = "size of the per-peer map's entry for the peer (0 if absent)"
+                elif want == "len(EI)+len(EO)":
+                    ok = render(cur) in TOTALS
+                    desc = "established-inbound.len() + established-outbound.len()"
                 else:
-                    ok = render(cur) == want
-                    desc = want.split("(")[-1].rstrip(")") + ".len()"
-                ctx.ob("operand", "%s: %s" % (fn, fld), ok, s.loc(), "%s is compared with %s; required: %s" % (fld, render(cur)[:160], desc))
-                cont = lib.switch_edges_on_site(b, s, {"Continue", "Ok"}, TRY)
-                brk = lib.switch_edges_on_site(b, s, {"Break", "Err"}, TRY)
-                ctx.ob("admit", "floor:%s %s pass/deny edges" % (fn, fld), len(cont) == 1 and len(brk) == 1, s.loc(),
+                    ok = render(cur) == LEN(want[4:-1])
+                    desc = ROLE_DESC[want[4:-1]] + ".len()"
+                ctx.ob("operand", "%s: %s" % (fn, lim_role), ok, s.loc(), "%s is compared with %s; required: %s" % (lim_role, render(cur)[:160], desc))
+                cont, brk = lm.result_edges(b, s)
+                ctx.ob("admit", "floor:%s %s pass/deny edges" % (fn, lim_role), len(cont) >= 1 and len(brk) >= 1, s.loc(),
                        "%s / %s" % (sorted(cont), sorted(brk)), nontrivial=False)
                 all_cont |= cont
                 for o in oks:
                     ok = b.must_pass_edges(o.bb, cont | byp) and bool(cont)
                     if not b.must_pass_edges(o.bb, byp) or not byp:
-                        ctx.ob("admit", "%s: Ok only after %s passed" % (fn, fld), ok, o.loc(),
+                        ctx.ob("admit", "%s: Ok only after %s passed" % (fn, lim_role), ok, o.loc(),
                                ("every path to this Ok passes the check's success edge (or the bypass edge)" if ok else
-                                "this Ok is reachable although check_limit(%s, ..) was not passed and the peer is not bypassed" % fld))
-                # denial is propagated: from the Break edge no Ok
+                                "this Ok is reachable although the %s check was not passed and the peer is not bypassed" % lim_role))
                 if brk:
                     got = lib.count_range(b, [t for _, t in brk], rets, lib.bbs(oks))
-                    ctx.ob("admit", "%s: %s denial is returned" % (fn, fld), got == (0, 0), s.loc(), "Ok results on paths from the Err edge: %s" % (got,))
+                    ctx.ob("admit", "%s: %s denial is returned" % (fn, lim_role), got == (0, 0), s.loc(), "Ok results on paths from the Err edge: %s" % (got,))
         # bookkeeping of the pending sets
-        pset = PENDING_SET[fn]
-        other = [x for x in SETS if x != pset]
+        prole = PENDING_ROLE[fn]
+        pset = F[prole]
         if fn.startswith("handle_pending"):
-            ins = set_calls(b, pset, r"HashSet::insert$")
+            ins = lm.self_field_calls(b, pset, r"HashSet::insert$")
             ctx.floor("pending", fn + " insert", ins, 1, exact=True)
             for s in ins:
                 e = b.site_expr(s)
-                ctx.ob("pending", fn + ": records the id it was asked about", render(e[2][0]) == "self." + pset and render(e[2][1]) == "connection_id", s.loc(), render(e)[:160])
+                ctx.ob("pending", fn + ": records the id it was asked about", render(e[2][0]) == "self." + pset and render(e[2][1]) == CID, s.loc(), render(e)[:160])
                 ok = bool(all_cont) and b.must_pass_edges(s.bb, all_cont)
-                ctx.ob("pending", fn + ": recorded only after the check passed", ok, s.loc(), "insert dominated by the success edge of check_limit")
+                ctx.ob("pending", fn + ": recorded only after the check passed", ok, s.loc(), "insert dominated by the success edge of the limit check")
             for _, t in sorted(all_cont):
                 got = lib.count_range(b, [t], rets, lib.bbs(ins))
-                ctx.ob("pending", fn + ": admitted id recorded once", got == (1, 1), where, "inserts into %s on paths from the success edge: %s" % (pset, got))
+                ctx.ob("pending", fn + ": admitted id recorded once", got == (1, 1), where, "inserts into the %s on paths from the success edge: %s" % (ROLE_DESC[prole], got))
         else:
-            rem = set_calls(b, pset, r"HashSet::remove$")
+            rem = lm.self_field_calls(b, pset, r"HashSet::remove$")
             ctx.floor("release", fn + " pending remove", rem, 1, exact=True)
             for s in rem:
                 e = b.site_expr(s)
-                ctx.ob("release", fn + ": removes the established id from " + pset, render(e[2][0]) == "self." + pset and render(e[2][1]) == "connection_id", s.loc(), render(e)[:160])
+                ctx.ob("release", fn + ": removes the established id from the " + ROLE_DESC[prole], render(e[2][0]) == "self." + pset and render(e[2][1]) == CID, s.loc(), render(e)[:160])
             got = lib.count_range(b, [0], rets, lib.bbs(rem))
             ctx.ob("release", fn + ": pending entry released on every path", got == (1, 1), where, "removes on all paths (bypass, denied, admitted): %s" % (got,))
-        for f in other:
-            ctx.ob("who", "%s does not touch %s" % (fn, f), not lib.field_mut_calls(b, f), where, "no &mut self.%s" % f)
+        for f in SETS:
+            if f != pset:
+                ctx.ob("who", "%s does not touch the %s" % (fn, ROLE_DESC[ROLE_OF[f]]), not lib.field_mut_calls(b, f), where, "no &mut self.%s" % f)
 
     # ------------------------------------------------------------------ on_swarm_event
-    ev = ctx.body(CL, NB + "on_swarm_event$")
+    ev, EV = R.ev, R.EV
     where = "%s:%d" % (ev.file, ev.line)
     rets = ev.return_blocks()
 
     def arm(name):
-        ents = lib.arm_entry(ev, r"^discr\(event\)$", name)
+        ents = lib.arm_entry(ev, r"^discr\(%s\)$" % re.escape(EV), name)
         ctx.ob("arms", "floor:arm " + name, len(ents) == 1, where, str(ents), nontrivial=False)
         return ents[0] if ents else None
 
-    def arm_region(a):
-        return ev.reachable([a[1]]) if a else set()
-
     est = arm("ConnectionEstablished")
     if est:
-        reg = arm_region(est)
-        ins_in = [s for s in set_calls(ev, "established_inbound_connections", r"HashSet::insert$") if s.bb in reg]
-        ins_out = [s for s in set_calls(ev, "established_outbound_connections", r"HashSet::insert$") if s.bb in reg]
-        ins_pp = [s for s in set_calls(ev, "established_per_peer", r"HashSet::insert$") if s.bb in reg]
+        reg = ev.reachable([est[1]])
+        ins_in = [s for s in lm.self_field_calls(ev, F["EI"], r"HashSet::insert$") if s.bb in reg]
+        ins_out = [s for s in lm.self_field_calls(ev, F["EO"], r"HashSet::insert$") if s.bb in reg]
+        ins_pp = [s for s in lm.self_field_calls(ev, F["PP"], r"HashSet::insert$") if s.bb in reg]
         ctx.floor("established", "inbound insert", ins_in, 1, exact=True)
         ctx.floor("established", "outbound insert", ins_out, 1, exact=True)
         ctx.floor("established", "per-peer insert", ins_pp, 1, exact=True)
-        for role, mine, theirs, setname in (("Listener", ins_in, ins_out, "established_inbound_connections"), ("Dialer", ins_out, ins_in, "established_outbound_connections")):
-            edges = lib.switch_edges_on(ev, r"^discr\(event@ConnectionEstablished\.0\.endpoint\)$", {role})
+        for role, mine, theirs, sr in (("Listener", ins_in, ins_out, "EI"), ("Dialer", ins_out, ins_in, "EO")):
+            edges = lib.switch_edges_on(ev, r"^discr\(%s@ConnectionEstablished\.0\.endpoint\)$" % re.escape(EV), {role})
             ctx.ob("established", "floor:%s edge" % role, len(edges) == 1, where, str(sorted(edges)), nontrivial=False)
             st = [t for _, t in edges]
             if st:
                 got = lib.count_range(ev, st, rets, lib.bbs(mine))
-                ctx.ob("established", "%s: inserted into %s" % (role, setname), got == (1, 1), where, "inserts on the %s edge: %s" % (role, got))
+                ctx.ob("established", "%s: inserted into the %s" % (role, ROLE_DESC[sr]), got == (1, 1), where, "inserts on the %s edge: %s" % (role, got))
                 got = lib.count_range(ev, st, rets, lib.bbs(theirs))
                 ctx.ob("established", "%s: not inserted into the other direction's set" % role, got == (0, 0), where, "inserts on the %s edge: %s" % (role, got))
         got = lib.count_range(ev, [est[1]], rets, lib.bbs(ins_pp))
@@ -296,65 +337,56 @@ def check(ctx):
         ctx.ob("established", "exactly one direction set extended on every path", got == (1, 1), where, "direction inserts in the arm: %s" % (got,))
         for s in ins_in + ins_out:
             e = ev.site_expr(s)
-            ctx.ob("established", "%s receives the event's connection id" % render(e[2][0]).split(".")[-1], render(e[2][1]) == "event@ConnectionEstablished.0.connection_id", s.loc(), render(e)[:200])
+            ctx.ob("established", "the %s receives the event's connection id" % ROLE_DESC[ROLE_OF[lm.recv_self_field(e)]], render(e[2][1]) == "%s@ConnectionEstablished.0.connection_id" % EV, s.loc(), render(e)[:200])
         for s in ins_pp:
             e = ev.site_expr(s)
             r0 = render(e[2][0])
-            ok = (r0 == "std::collections::hash_map::Entry::or_default(std::collections::HashMap::entry(self.established_per_peer, event@ConnectionEstablished.0.peer_id))"
-                  and render(e[2][1]) == "event@ConnectionEstablished.0.connection_id")
+            ok = (r0 == "std::collections::hash_map::Entry::or_default(std::collections::HashMap::entry(self.%s, %s@ConnectionEstablished.0.peer_id))" % (F["PP"], EV)
+                  and render(e[2][1]) == "%s@ConnectionEstablished.0.connection_id" % EV)
             ctx.ob("established", "per-peer insert is keyed by the event's peer and id (in-place extension)", ok, s.loc(), render(e)[:260])
-    # removals
-    REMOVALS = {"ConnectionClosed": ["established_inbound_connections", "established_outbound_connections", "established_per_peer"],
-                "DialFailure": ["pending_outbound_connections"], "ListenFailure": ["pending_inbound_connections"]}
-    for name, fields in REMOVALS.items():
+    REMOVALS = {"ConnectionClosed": ["EI", "EO", "PP"], "DialFailure": ["PO"], "ListenFailure": ["PI"]}
+    for name, roles in REMOVALS.items():
         a = arm(name)
         if not a:
             continue
-        reg = arm_region(a)
-        for f in fields:
-            rem = [s for s in set_calls(ev, f, r"HashSet::remove$") if s.bb in reg]
-            ctx.floor("release", "%s remove from %s" % (name, f), rem, 1, exact=True)
+        reg = ev.reachable([a[1]])
+        for sr in roles:
+            f = F[sr]
+            rem = [s for s in lm.self_field_calls(ev, f, r"HashSet::remove$") if s.bb in reg]
+            ctx.floor("release", "%s remove from the %s" % (name, ROLE_DESC[sr]), rem, 1, exact=True)
             got = lib.count_range(ev, [a[1]], rets, lib.bbs(rem))
-            ctx.ob("release", "%s: removed from %s on every path" % (name, f), got == (1, 1), where, "removes in the arm: %s" % (got,))
+            ctx.ob("release", "%s: removed from the %s on every path" % (name, ROLE_DESC[sr]), got == (1, 1), where, "removes in the arm: %s" % (got,))
             for s in rem:
                 e = ev.site_expr(s)
-                ok = render(e[2][1]) == "event@%s.0.connection_id" % name
-                if f == "established_per_peer":
-                    ok = ok and "HashMap::entry(self.established_per_peer, event@ConnectionClosed.0.peer_id)" in render(e[2][0]) or \
-                        ok and "HashMap::get_mut(self.established_per_peer, event@ConnectionClosed.0.peer_id)" in render(e[2][0])
-                ctx.ob("release", "%s: removes the event's own id from %s" % (name, f), ok, s.loc(), render(e)[:240])
+                ok = render(e[2][1]) == "%s@%s.0.connection_id" % (EV, name)
+                if sr == "PP":
+                    ok = ok and re.search(r"HashMap::(entry|get_mut)\(self\.%s, %s@ConnectionClosed\.0\.peer_id\)" % (re.escape(f), re.escape(EV)), render(e[2][0])) is not None
+                ctx.ob("release", "%s: removes the event's own id from the %s" % (name, ROLE_DESC[sr]), ok, s.loc(), render(e)[:240])
     # ------------------------------------------------------------------ who may mutate the sets, crate-wide
     ALLOWED = {
-        ("handle_pending_inbound_connection", "pending_inbound_connections", "insert"),
-        ("handle_pending_outbound_connection", "pending_outbound_connections", "insert"),
-        ("handle_established_inbound_connection", "pending_inbound_connections", "remove"),
-        ("handle_established_outbound_connection", "pending_outbound_connections", "remove"),
-        ("on_swarm_event", "established_inbound_connections", "insert"), ("on_swarm_event", "established_inbound_connections", "remove"),
-        ("on_swarm_event", "established_outbound_connections", "insert"), ("on_swarm_event", "established_outbound_connections", "remove"),
-        ("on_swarm_event", "established_per_peer", "entry"),
-        ("on_swarm_event", "pending_outbound_connections", "remove"), ("on_swarm_event", "pending_inbound_connections", "remove"),
+        ("handle_pending_inbound_connection", "PI", "insert"), ("handle_pending_outbound_connection", "PO", "insert"),
+        ("handle_established_inbound_connection", "PI", "remove"), ("handle_established_outbound_connection", "PO", "remove"),
+        ("on_swarm_event", "EI", "insert"), ("on_swarm_event", "EI", "remove"), ("on_swarm_event", "EO", "insert"), ("on_swarm_event", "EO", "remove"),
+        ("on_swarm_event", "PP", "entry"), ("on_swarm_event", "PO", "remove"), ("on_swarm_event", "PI", "remove"),
     }
     found = set()
     sites = []
     for b in prog.bodies(CL):
         for f in SETS:
             for s in lib.field_mut_calls(b, f):
-                found.add((b.npath.split("::")[-1] if b.kind != "closure" else b.npath, f, strip_generics(b.call_name(s.term)).split("::")[-1]))
+                found.add((b.npath.split("::")[-1] if b.kind != "closure" else b.npath, ROLE_OF[f], strip_generics(b.call_name(s.term)).split("::")[-1]))
                 sites.append(s)
             for s in b.field_write_sites(f, r"libp2p_connection_limits::Behaviour"):
-                found.add((b.npath, f, "assign"))
+                found.add((b.npath, ROLE_OF[f], "assign"))
     ctx.floor("who", "mutating uses of the five sets", sites, 11)
     extra = found - ALLOWED
     ctx.ob("who", "mutators of the five sets", not extra, msg="unexpected mutation sites: %s" % sorted(extra) if extra else "%d mutation sites, all in the allow-table" % len(found))
-    # removal sites: none outside the arms/handlers audited above
-    # on_swarm_event: removals of pending ids only in the failure arms, of established ids only in ConnectionClosed
-    for f, arms in (("pending_outbound_connections", {"DialFailure"}), ("pending_inbound_connections", {"ListenFailure"}),
-                    ("established_inbound_connections", {"ConnectionClosed"}), ("established_outbound_connections", {"ConnectionClosed"})):
-        for s in set_calls(ev, f, r"HashSet::(remove|clear|retain|drain|take)$"):
-            gs = [ls for (t, ls, _, c) in ev.guards_on_all_paths(s.bb) if t == "discr(event)"]
+    for sr, arms in (("PO", {"DialFailure"}), ("PI", {"ListenFailure"}), ("EI", {"ConnectionClosed"}), ("EO", {"ConnectionClosed"})):
+        for s in lm.self_field_calls(ev, F[sr], r"HashSet::(remove|clear|retain|drain|take)$"):
+            gs = [ls for (t, ls, _, c) in ev.guards_on_all_paths(s.bb) if t == "discr(%s)" % EV]
             ok = bool(gs) and all(set(ls) <= arms for ls in gs)
-            ctx.ob("who", "removal from %s only in %s" % (f, "/".join(sorted(arms))), ok, s.loc(), "arm labels on all paths: %s" % [sorted(x) for x in gs])
-    for s in set_calls(ev, "established_per_peer", r"HashSet::(remove|clear|retain|drain|take)$|HashMap::(remove|clear|retain|drain)$"):
-        gs = [ls for (t, ls, _, c) in ev.guards_on_all_paths(s.bb) if t == "discr(event)"]
+            ctx.ob("who", "removal from the %s only in %s" % (ROLE_DESC[sr], "/".join(sorted(arms))), ok, s.loc(), "arm labels on all paths: %s" % [sorted(x) for x in gs])
+    for s in lm.self_field_calls(ev, F["PP"], r"HashSet::(remove|clear|retain|drain|take)$|HashMap::(remove|clear|retain|drain)$"):
+        gs = [ls for (t, ls, _, c) in ev.guards_on_all_paths(s.bb) if t == "discr(%s)" % EV]
         ok = bool(gs) and all(set(ls) <= {"ConnectionClosed"} for ls in gs)
-        ctx.ob("who", "removal from established_per_peer only in ConnectionClosed", ok, s.loc(), "arm labels on all paths: %s" % [sorted(x) for x in gs])
+        ctx.ob("who", "removal from the per-peer map only in ConnectionClosed", ok, s.loc(), "arm labels on all paths: %s" % [sorted(x) for x in gs])
